@@ -256,6 +256,53 @@ def fitted_leaf_stream(ctx):
             return
 
 
+def inferred_scope_stream(ctx):
+    """inner nodes built WITHOUT an explicit scope (it is inferred from the children) over multivariate leaves whose scope list is not
+    in increasing order: building a parent must not change its children, and the value is the one of the children as they were given"""
+    from deeprob.spn.structure.node import Sum, Product
+    quick = ctx.tier == 'quick'
+    for k in range(10 if quick else 100):
+        inferred_case(ctx, k)
+        if ctx.n_new(with_input_only=True) >= 3:
+            return
+
+
+def inferred_case(ctx, k):
+    from deeprob.spn.structure.node import Sum, Product
+    if True:
+        rs = np.random.RandomState(np_seed(ctx.sub_rng('inferred', k)))
+        n = int(rs.randint(2, 5))
+        sc = [int(v) for v in rs.permutation(n + 2)[:n]]
+        while sc == sorted(sc):
+            sc = [int(v) for v in rs.permutation(n + 2)[:n]]
+        leaves = [S.rand_clt(rs, list(sc)) for _ in range(int(rs.randint(2, 4)))]
+        given = [(list(l.scope), [int(t) for t in l.tree], np.array(l.params, dtype=np.float64)) for l in leaves]
+        w = rs.dirichlet(np.ones(len(leaves))).astype(np.float32)
+        if k % 2 == 0:
+            root = Sum(children=leaves, weights=(w / w.sum()).astype(np.float32))
+        else:
+            extra = [v for v in range(n + 3) if v not in sc][:1]
+            root = Product(children=[Sum(children=leaves, weights=(w / w.sum()).astype(np.float32)), S.rand_leaf(rs, extra[0], ('bern',))])
+        assign_ids(root)
+        ctx.count('inner-nodes-with-inferred-scope-over-unsorted-clt-leaves')
+        ctx.case('inferred-scope', nontrivial_key=('inferred', k), sample=dict(leaf_scope=sc, leaves=len(leaves)))
+        rep = dict(kind='c01-inferred', k=k, seed=ctx.seed, table=[], rows=[])
+        for l, (gs, gt, gp) in zip(leaves, given):
+            if list(l.scope) != gs or [int(t) for t in l.tree] != gt or not np.array_equal(np.array(l.params, dtype=np.float64), gp):
+                ctx.violation('c01-child-changed-by-parent', f'building an inner node over a Chow-Liu leaf changed the leaf: its scope was {gs}, it is {list(l.scope)} now '
+                              f'(tree / tables unchanged: {[int(t) for t in l.tree] == gt}) — the leaf reads other columns than before', replay=rep)
+                break
+        else:
+            ncols = max(int(v) for v in root.scope) + 1
+            X = rs.randint(0, 2, size=(8, ncols)).astype(np.float32)
+            a = np.asarray(log_likelihood(root, X), dtype=np.float64).reshape(-1)
+            for r in range(len(X)):
+                ref = S.ref_value(root, X[r].astype(np.float64))
+                if abs(sexp(a[r]) - ref) > 1e-6 + 2e-4 * ref:
+                    ctx.violation('c01-inferred-value', f'log_likelihood {a[r]!r} but the circuit over its parameters has value {ref!r} at {X[r].tolist()}', replay=rep)
+                    break
+
+
 def subclass_stream(ctx):
     """circuits whose inner nodes are instances of USER SUBCLASSES of Sum / Product (own EM step, own bookkeeping): a sum node is a
     sum node for every query — the value is the circuit's semantics over its parameters (`S.ref_value`), equal to what the same
@@ -425,6 +472,8 @@ def run(ctx):
         subclass_stream(ctx)
     if ctx.n_new(with_input_only=True) == 0:
         fitted_leaf_stream(ctx)
+    if ctx.n_new(with_input_only=True) == 0:
+        inferred_scope_stream(ctx)
     ctx.notes.append('total mass is not enumerated by the model: it is evalNet with nothing observed, equal to the enumerated '
                      'sum by Circ.marg / C01_normalised; the implementation side is enumerated when the discrete domain is small')
 
@@ -448,6 +497,14 @@ def replay(rep):
         from harness.common import replay_demo
         return replay_demo(rep['replay'])
     r = rep['replay']
+    if r.get('kind') == 'c01-inferred':
+        from harness.common import Ctx
+        c2 = Ctx('C01', 'quick', r['seed'])
+        c2.driver_ok = False
+        inferred_case(c2, r['k'])
+        for v in c2.violations:
+            print('  ', v['what'][:300])
+        return not c2.violations
     if r.get('kind') == 'c01-fitted':
         root, X, doms = fitted_case(np.random.RandomState(r['np_seed']), r['k'])
         return fitted_check(root, X, doms, print)
